@@ -9,12 +9,14 @@ from checks import stack_common as ST
 
 PROPERTY = "C13"
 LEVEL = "fault_enumeration"
-CODE = ["yowsup/axolotl/store/sqlite/liteaxolotlstore.py", "litesessionstore.py", "liteidentitykeystore.py", "liteprekeystore.py", "litesignedprekeystore.py", "litesenderkeystore.py"]
-BOUNDS = {"quick": "per table: every sequence of <=2 operations over {store A, store B (replace), delete, ...} on 2 keys, crash at every statement/commit boundary of the last operation, reopen",
-          "thorough": "sequences of <=4 operations"}
+CODE = ["sx/symsql.py (model of sqlite3, validated against the real library by bin/selftest)", "yowsup/axolotl/store/sqlite/liteaxolotlstore.py", "litesessionstore.py", "liteidentitykeystore.py", "liteprekeystore.py", "litesignedprekeystore.py", "litesenderkeystore.py"]
+BOUNDS = {"quick": "per table: every sequence of <=2 operations over {store A, store B (replace), delete, ...} on 2 keys, crash at every statement/commit boundary of the last operation, reopen; "
+                   "symbolic: <=2 operations with unconstrained ids (0..2^40), group ids (strings <=6), record blobs (1..64 bytes), 32-byte identity keys, registration id; crash before boundary 0..3 or none",
+          "thorough": "sequences of <=4 operations (symbolic: <=3)"}
 OUTSIDE = ["sqlite's own journal atomicity (trusted: a transaction that was not committed is rolled back when the file is reopened)", "power-loss below the OS (fsync ordering)",
            "record contents: blobs are opaque tokens in the crash harness (sqlite only stores and compares them); real python-axolotl records are used in the durability harness"]
-ASSUMPTIONS = ["a process death = the connection is abandoned at a statement/commit boundary without commit"]
+ASSUMPTIONS = ["a process death = the connection is abandoned at a statement/commit boundary without commit",
+               "symbolic cases: sqlite3 behaves like sx/symsql.py on the statements issued (differentially tested each run; every model replayed on real sqlite3); python-axolotl record classes are transparent wrappers of their bytes"]
 EXPLANATION = "solver-driven enumeration of operation sequence x crash boundary on the real stores over real sqlite"
 
 _TMP = os.environ.get("VERIF_TMP") or ("/dev/shm" if os.path.isdir("/dev/shm") else tempfile.gettempdir())
